@@ -96,6 +96,8 @@ FS1K = ["--max-field-sensitivity-array-size", "1024"]
 def H(prop, module, name, tier="quick", timeout=120, bounds="", encodes=(), stubs=(), assumes=(),
       expect="pass", replay="playback", unwind=None, kani_args=(), unwind_is_violation=False, note="",
       no_cover=None, cbmc_args=()):
+    if expect == "witness-fail" and timeout < 600:
+        timeout = 600   # a twin that comes back without a verdict breaks the whole check: never let it be the time limit
     HARNESSES.append(dict(prop=prop, module=module, name=name, tier=tier, timeout=timeout, bounds=bounds,
                           encodes=list(encodes), stubs=list(stubs), assumes=list(assumes), expect=expect,
                           replay=replay, unwind=unwind, kani_args=list(kani_args),
@@ -166,7 +168,7 @@ _KS = dict(encodes=["blowfish::Blowfish::new"], replay="structural", unwind=130,
                     "trace generation for them took 290 of 335 s",
            stubs=["Blowfish::encrypt_pair -> recorder returning fresh nondeterministic pairs (521 calls)"])
 H("C11", "blowfish", "c11_key_schedule_8", tier="quick", timeout=600, bounds="all 2^64 8-byte keys", **_KS)
-H("C11", "blowfish", "c11_key_schedule_16", tier="quick", timeout=900, bounds="all 16-byte keys", **_KS)
+H("C11", "blowfish", "c11_key_schedule_16", tier="thorough", timeout=1500, bounds="all 16-byte keys", **_KS)
 H("C11", "blowfish", "c11_key_schedule_56", tier="thorough", timeout=1800, bounds="all 56-byte keys", **_KS)
 H("C11", "blowfish", "c11_published_vector_zero_key", tier="thorough", timeout=1800, unwind=130,
   bounds="one concrete published vector (key 0^8, block 0^8) through new+encrypt; decided by constant propagation",
@@ -189,7 +191,7 @@ for n, t in ((0, "quick"), (1, "quick"), (2, "thorough"), (3, "thorough")):
       bounds="all byte strings of length %d" % n,
       encodes=["crc::XivCrc32::from", "crc::crc32", "libz_rs_sys::crc32 (zlib-rs, real code)"])
 H("C12", "crc", "c12_pipeline_witness", expect="witness-fail", bounds="assert(false) twin")
-H("C12", "sha1", "c12_sha1_compress_full", timeout=900, unwind=82,
+H("C12", "sha1", "c12_sha1_compress_full", tier="thorough", timeout=1500, unwind=82,
   bounds="all 2^160 chaining values x all 2^512 blocks (one compression call)",
   encodes=["sha1::Sha1State::process", "sha1::sha1_digest_round_x4", "sha1::sha1rnds4c/p/m", "sha1::sha1msg1", "sha1::sha1msg2", "sha1::sha1_first_half"])
 for g in ("choose", "parity1", "majority", "parity2"):
@@ -386,7 +388,8 @@ H("C18", "compression", "c18c_pipeline_witness", expect="witness-fail", bounds="
 _MC = ["core::slice::memchr::memchr_aligned -> naive forward scan"]
 for n, t in (("empty_comment", "thorough"), ("ascii_comment", "thorough"), ("non_ascii_comment", "quick")):
     H("C09", "chardat", "c09_checksum_" + n, tier=t, unwind=200, timeout=600, bounds="all 24 byte-valued appearance fields, all timestamps (symbolic); race/tribe/gender and comment text concrete (" + n + ")",
-      encodes=["chardat::CharacterData::calc_checksum", "chardat::CustomizeData (BinWrite)", "common_file_operations::write_string"], stubs=_MC, cbmc_args=FS256)
+      encodes=["chardat::CharacterData::calc_checksum", "chardat::CustomizeData (BinWrite)", "common_file_operations::write_string"], stubs=_MC, cbmc_args=FS256,
+      kani_args=["--no-assertion-reach-checks"])
 for n in ("ascii", "empty"):
     H("C09", "chardat", "c09_written_layout_" + n, tier="thorough", unwind=200, timeout=600, bounds="all appearance field values / version / timestamp (symbolic); tags and comment concrete (" + n + ")",
       encodes=["chardat::CharacterData (BinWrite)", "chardat::CharacterData::calc_checksum"], stubs=_MC, cbmc_args=FS256)
@@ -430,7 +433,7 @@ H("C18", "cmp", "c18_cmp_short_buffer", unwind=6, timeout=300, bounds="all 12-by
 # C14 continued: colour / dye rows, selectors, node lookup
 _H1 = ["half::binary16::arch::f16_to_f32 (run-time F16C dispatch) -> half's portable to_f32_const"]
 H("C14", "mtrl", "c14_legacy_color_row", unwind=13, timeout=600, bounds="all 32-byte rows (every half pattern in every component)", encodes=["mtrl::LegacyColorTableRow (BinRead)", "common_file_operations::Half1/2/3"], stubs=_H1)
-H("C14", "mtrl", "c14_dawntrail_color_row", unwind=13, timeout=900, bounds="all 64-byte rows", encodes=["mtrl::DawntrailColorTableRow (BinRead)"], stubs=_H1)
+H("C14", "mtrl", "c14_dawntrail_color_row", tier="thorough", unwind=13, timeout=900, bounds="all 64-byte rows", encodes=["mtrl::DawntrailColorTableRow (BinRead)"], stubs=_H1)
 H("C14", "mtrl", "c14_dye_rows", unwind=6, timeout=300, bounds="all u16 legacy / u32 Dawntrail dye words", encodes=["mtrl::LegacyColorDyeTableRow", "mtrl::DawntrailColorDyeTableRow"])
 H("C14", "mtrl", "c14m_pipeline_witness", expect="witness-fail", unwind=6, bounds="assert(false) twin")
 H("C14", "shpk", "c14_selector_polynomial", unwind=12, timeout=300, bounds="all key lists of length 0..10 (symbolic length and keys; 31^7.. exceed 32 bits)", encodes=["shpk::ShaderPackage::build_selector"])
@@ -546,7 +549,7 @@ H("C05", "exd", "c05_page_filename_wide_ids", unwind=100, timeout=900, bounds="s
 
 # VERIF_SEED-chosen extra shapes (gen/params.rs; the chosen values are copied into the evidence by the driver)
 H("C12", "sha1", "c12_sha1_padding_seeded_len", timeout=600, unwind=200, bounds="SHA-1 padding, one more message length chosen by VERIF_SEED (2..189), all contents", **_PAD)
-H("C04", "sqpack_mod", "c04_patch_block_roundtrip_seeded_len", unwind=260, timeout=600, bounds="patch block write->read, one more length chosen by VERIF_SEED (2..249), all content bytes",
+H("C04", "sqpack_mod", "c04_patch_block_roundtrip_seeded_len", tier="thorough", unwind=260, timeout=900, bounds="patch block write->read, one more length chosen by VERIF_SEED (2..249), all content bytes",
   encodes=["sqpack::write_data_block_patch", "sqpack::read_data_block_patch"], cbmc_args=FS1K)
 H("C13", "bcn", "c13_image_bc1_seeded_size", unwind=18, timeout=900, bounds="BC1 image of a size chosen by VERIF_SEED (1..9 x 1..9), all data bytes, every pixel", encodes=["bcn::decode_bc1"])
 H("C05", "exd", "c05_cell_u32_seeded_offset", timeout=300, unwind=18, bounds="u32 column at an offset chosen by VERIF_SEED (0..8), all 16 row bytes", encodes=_RR)
@@ -607,3 +610,14 @@ for n in (0, 7, 8, 9, 16):
 H("C16", "havok_reader", "c16_havok_packed_int", unwind=8, timeout=300, bounds="all packed-integer encodings of 1..4 bytes",
   encodes=["havok::binary_tag_file_reader::HavokBinaryTagFileReader::read_packed_int"])
 H("C16", "havok_reader", "c16h_pipeline_witness", expect="witness-fail", unwind=8, bounds="assert(false) twin")
+H("C14", "shpk", "c14_shader_package_pixel_shader_parameters", tier="quick", unwind=20, timeout=1200, cbmc_args=FS1K, kani_args=["--no-assertion-reach-checks"],
+  bounds="140-byte package with one pixel shader: 1 UAV + 1 texture parameter (names in the string blob), 4 bytes of bytecode; offsets / lengths / names concrete, ids, slots, sizes and bytecode symbolic",
+  encodes=["shpk::ShaderPackage::from_existing", "shpk::Shader (BinRead)", "shpk::ResourceParameter (BinRead)"], stubs=["core::str::validations::run_utf8_validation -> ASCII-only model"])
+H("C14", "mtrl", "c14_material_from_existing_minimal", tier="quick", unwind=20, timeout=1200, cbmc_args=FS1K, kani_args=["--no-assertion-reach-checks"],
+  bounds="88-byte material without colour / dye tables: 1 texture path, package name, 1 shader key, 1 constant of two floats, 1 sampler; counts, strings, constant offset / size concrete, everything else symbolic",
+  encodes=["mtrl::Material::from_existing", "mtrl::MaterialData (BinRead)"], stubs=["core::str::validations::run_utf8_validation -> ASCII-only model"])
+H("C16", "pbd", "c16_deformer_from_existing", tier="quick", unwind=16, timeout=1200, cbmc_args=FS1K, kani_args=["--no-assertion-reach-checks"],
+  bounds="217-byte deformer file: 2 body ids, 2 links, deformers with 1 bone (odd count: padding) and 2 bones at an unaligned offset; counts, data offsets, names concrete; "
+         "body ids, link fields and all 36 matrix words symbolic",
+  encodes=["pbd::PreBoneDeformer::from_existing", "pbd::PreBoneDeformerHeader / Item / Link / RacialDeformer (BinRead)", "common_file_operations::strings_parser"])
+H("C17", "gearsets", "c17_gearsets_header_with_empty_body", unwind=24, timeout=600, bounds="20-byte file: gear-set tag, content size 0 (concrete), all other bytes symbolic", encodes=["gearsets::GearSets::from_existing", "dat::DatHeader (BinRead)"])
